@@ -149,22 +149,36 @@ def NoWrap (sec : Nat → Rat) (tr : Traj) : Prop :=
   ∀ k, ((trajCur sec tr).chain k).length ≠ 0 →
     ((trajCur sec tr).chain k).startMs + ((trajCur sec tr).chain k).durMs < 4294967296
 
-/-- **Tiling.** The segments of any trajectory block tile the time axis. -/
-theorem traj_tiling (sec : Nat → Rat) (tr : Traj) (hsec : MonoSec sec) (hw : NoWrap sec tr) :
-    ∃ N, N ≤ tr.buf.length ∧ Tiling (trajCur sec tr) N := by
+/-- **Termination structure.** For every trajectory object (any bytes) the chain of segments starts
+at time 0, consecutive segments share their boundary, and a terminal element is reached after at
+most `buf.length` segments.  Needs only `sec 0 ≤ 0`. -/
+theorem traj_tiling0 (sec : Nat → Rat) (tr : Traj) (h0 : sec 0 ≤ 0) :
+    ∃ N, N ≤ tr.buf.length ∧ Tiling0 (trajCur sec tr) N ∧
+      ((trajCur sec tr).chain N).length = 0 ∧ ∀ k, k < N → ((trajCur sec tr).chain k).length ≠ 0 := by
   obtain ⟨N, hN, hterm, hmin⟩ := chain_terminal_exists sec tr
-  refine ⟨N, hN, ?_⟩
+  refine ⟨N, hN, ?_, hterm, hmin⟩
   have hst : ∀ k, (trajCur sec tr).st ((trajCur sec tr).chain k) = sec ((trajCur sec tr).chain k).startMs :=
     fun k => (chain_built sec tr k).startSec
-  refine ⟨?_, ?_, ?_, ?_, ?_⟩
+  refine ⟨?_, ?_, ?_⟩
   · rw [hst 0]
     have : ((trajCur sec tr).chain 0).startMs = 0 := (buildSeg_built sec tr _ _ _).2.2
-    rw [this]; exact hsec.zero
+    rw [this]; exact h0
   · intro k e he
     rw [hst (k + 1), (chain_succ_start sec tr k).1]
     rcases (chain_built sec tr k).shape with ⟨_, hnone, _⟩ | ⟨_, hsome, _⟩
     · change ((trajCur sec tr).chain k).endSec = some e at he; rw [hnone] at he; cases he
     · change ((trajCur sec tr).chain k).endSec = some e at he; rw [hsome] at he; injection he with he
+  · rcases (chain_built sec tr N).shape with ⟨_, hnone, _⟩ | ⟨h3, _⟩
+    · exact hnone
+    · omega
+
+/-- **Tiling.** The segments of any trajectory block tile the time axis. -/
+theorem traj_tiling (sec : Nat → Rat) (tr : Traj) (hsec : MonoSec sec) (hw : NoWrap sec tr) :
+    ∃ N, N ≤ tr.buf.length ∧ Tiling (trajCur sec tr) N := by
+  obtain ⟨N, hN, T0, hterm, hmin⟩ := traj_tiling0 sec tr hsec.zero
+  refine ⟨N, hN, ⟨T0, ?_, ?_⟩⟩
+  have hst : ∀ k, (trajCur sec tr).st ((trajCur sec tr).chain k) = sec ((trajCur sec tr).chain k).startMs :=
+    fun k => (chain_built sec tr k).startSec
   · intro k e he
     rw [hst k]
     rcases (chain_built sec tr k).shape with ⟨_, hnone, _⟩ | ⟨h3, hsome, _, hend, _⟩
@@ -175,9 +189,6 @@ theorem traj_tiling (sec : Nat → Rat) (tr : Traj) (hsec : MonoSec sec) (hw : N
       have := hw k (by omega)
       rw [hend]; unfold u32
       rw [Nat.mod_eq_of_lt this]; omega
-  · rcases (chain_built sec tr N).shape with ⟨_, hnone, _⟩ | ⟨h3, _⟩
-    · exact hnone
-    · omega
   · intro k hk
     rcases (chain_built sec tr k).shape with ⟨h0, _⟩ | ⟨_, hsome, _⟩
     · exact absurd h0 (hmin k hk)
